@@ -133,9 +133,13 @@ is_6531_local (const char *start, const char *end)
                         break;
 
                     switch (ch) {
-                        case '"':
+                        case '"': {
+                            /* closing quote must be followed by '.' or the end */
+                            int pos = utf8_decode_at_byte(&u);
+                            if ((start + pos + 1) < end && start[pos + 1] != '.')
+                                return inverse(EEAV_LPART_MISPLACED_QUOTE);
                             quote = !quote;
-                            break;
+                        } break;
                         case '\n': case '\r': case '\t': case ' ':
                             break;
                         default:
